@@ -301,10 +301,69 @@ func controlDeps(fn *ssa.Function) map[*ssa.BasicBlock][]ctrlDep {
 	return out
 }
 
-// transitiveControlDeps closes controlDeps transitively: the set of (branch,
-// successor) pairs that must have been taken for the block to execute.
-func transitiveControlDeps(fn *ssa.Function) map[*ssa.BasicBlock][]ctrlDep {
+// reachableAvoiding: blocks reachable from start without passing through avoid.
+func reachableAvoiding(start, avoid *ssa.BasicBlock) map[*ssa.BasicBlock]bool {
+	seen := map[*ssa.BasicBlock]bool{}
+	if start == avoid {
+		return seen
+	}
+	work := []*ssa.BasicBlock{start}
+	seen[start] = true
+	for len(work) > 0 {
+		b := work[len(work)-1]
+		work = work[:len(work)-1]
+		for _, s := range b.Succs {
+			if s == avoid || seen[s] {
+				continue
+			}
+			seen[s] = true
+			work = append(work, s)
+		}
+	}
+	return seen
+}
+
+// exclusiveControlDeps keeps a control dependence (A, s) of block B only if B
+// cannot be reached from A's other successor(s) without passing through A
+// again: B then executes under exactly one outcome of A's test. (Blocks after
+// an early return are control dependent on the test guarding the return, but
+// run under both of its outcomes; they say nothing about the tested value.)
+func exclusiveControlDeps(fn *ssa.Function) map[*ssa.BasicBlock][]ctrlDep {
 	direct := controlDeps(fn)
+	type key struct {
+		a *ssa.BasicBlock
+		s int
+	}
+	other := map[key]map[*ssa.BasicBlock]bool{}
+	out := map[*ssa.BasicBlock][]ctrlDep{}
+	for b, ds := range direct {
+		for _, d := range ds {
+			k := key{d.Branch, d.Succ}
+			if other[k] == nil {
+				m := map[*ssa.BasicBlock]bool{}
+				for i, s := range d.Branch.Succs {
+					if i == d.Succ {
+						continue
+					}
+					for x := range reachableAvoiding(s, d.Branch) {
+						m[x] = true
+					}
+				}
+				other[k] = m
+			}
+			if !other[k][b] {
+				out[b] = append(out[b], d)
+			}
+		}
+	}
+	return out
+}
+
+// transitiveControlDeps closes the exclusive control dependences
+// transitively: the (branch, successor) pairs that must have been taken for
+// the block to execute.
+func transitiveControlDeps(fn *ssa.Function) map[*ssa.BasicBlock][]ctrlDep {
+	direct := exclusiveControlDeps(fn)
 	out := map[*ssa.BasicBlock][]ctrlDep{}
 	for _, b := range fn.Blocks {
 		seen := map[ctrlDep]bool{}
